@@ -462,7 +462,7 @@ def gen_case(rng: random.Random, engine=None, force=None):
         r = rng.random()
         if with_arr and r < 0.45:
             kind = "exploding"
-        elif engine == "duckdb" and r < 0.75 and not with_arr:
+        elif engine in ("duckdb", "sqlite") and r < 0.75 and not with_arr:
             kind = "salted" if rng.random() < 0.5 else "plain"
         if kind == "exploding":
             ast = bg.gen_rule(rng, depth=1, asym_ok=False, arr=True)
@@ -531,7 +531,7 @@ def gen_rules(rng: random.Random, engine: str, with_arr: bool, nrules=None):
         kind = "plain"
         if with_arr and r < 0.4:
             kind = "exploding"
-        elif engine == "duckdb" and r < 0.7:
+        elif engine in ("duckdb", "sqlite") and r < 0.7:
             kind = "salted"
         if kind == "exploding":
             ast = bg.gen_rule(rng, depth=1, asym_ok=False, arr=True)
@@ -970,7 +970,7 @@ def run(ctx: core.Ctx):
     )
     ctx.assumptions = [
         "composite ids distinct (WFKeys): no source-dataset alias contains '-__-', unique ids distinct within a table",
-        "one linker per DatabaseAPI (K1); salted prediction rules only on DuckDB/Spark (documented scope of salting)",
+        "one linker per DatabaseAPI (K1); salted rules on DuckDB, SQLite (since the repair of the SQLite salt, a743f551) and Spark",
         "rule outcomes are computed by the harness's own 3-valued evaluator for the generated grammar (engine expression semantics trusted for atoms)",
         "for rules asymmetric in l/r only uniqueness and the two-sided bound are required (property statement)",
     ]
